@@ -142,6 +142,23 @@ def fn_versions(vers):
     return (len(vers) >= 2, tuple(exp), viols, 2)
 
 
+NAMES2 = ["lib", "Lib", "LIB", "stra\u00dfe", "strasse", "k", "\u212a", "lib "]
+
+
+def fn_names(names):
+    from htmltools import HTMLDependency, Tag, TagList
+    deps = [HTMLDependency(n, "1.0", head=f"<!--m{i}-->") for i, n in enumerate(names)]
+    exp = [p for (_, _, p) in resolve([(n, "1.0", i) for i, n in enumerate(names)])]
+    viols = []
+    tree = Tag("div", *[Tag("span", d) if i % 2 else d for i, d in enumerate(deps)])
+    got = tree.get_dependencies()
+    gi = [next(i for i, d in enumerate(deps) if d is g) for g in got]
+    if gi != exp:
+        viols.append(("resolve:name-identity", f"names {names}: kept {gi}, expected {exp} (names are compared as exact strings)",
+                      {"names": names}))
+    return (len(names) >= 2, tuple(exp), viols, 1)
+
+
 # ---------------------------------------------------------- validation matrix
 ITEM = {"script": {"src": "a.js"}, "stylesheet": {"href": "a.css"}, "meta": {"name": "n", "content": "c"}}
 ITEM2 = {"script": {"src": "b.js", "defer": ""}, "stylesheet": {"href": "b.css", "media": "print"},
@@ -247,6 +264,8 @@ def plan(tier):
              note=f"all sequences of <= {n} of {len(KINDS)} dependency kinds x {len(PLACEMENTS)} placements"),
         dict(kind="space", name="version-order", fn=fn_versions, space=Seq(Const(VERS2), 1, 2 if tier == "quick" else 3),
              note=f"one name, every sequence of <= 2 (quick) / <= 3 versions over {len(VERS2)} multi-component versions"),
+        dict(kind="space", name="name-identity", fn=fn_names, space=Seq(Const(NAMES2), 1, 3),
+             note="every sequence of <= 3 names that differ only by letter case / case folding / trailing space"),
         dict(kind="space", name="constructor-validation", fn=fn_validation, space=Const(validation_cases()),
              note="equal single/list forms and every malformed definition named in the statement"),
     ]
